@@ -85,6 +85,13 @@ EncHdr(base, n) == IF n < 56 THEN <<base + n>> ELSE <<base + 55 + Len(MinBE(n))>
 EncStr(v) == IF Len(v) = 1 /\ v[1] < 128 THEN v ELSE EncHdr(128, Len(v)) \o v
 EncList(c) == EncHdr(192, Len(c)) \o c
 
+\* seqs[lo] \o ... \o seqs[hi]  (balanced; the caller passes the bounds so that TLC never re-enumerates seqs)
+RECURSIVE Flat(_, _, _)
+Flat(seqs, lo, hi) ==
+  IF lo > hi THEN <<>>
+  ELSE IF lo = hi THEN seqs[lo]
+  ELSE LET mid == (lo + hi) \div 2 IN Flat(seqs, lo, mid) \o Flat(seqs, mid + 1, hi)
+
 \* the items of a list window taken RAW (Stream.Raw: header rules only, contents not inspected)
 RECURSIVE RawItems(_, _, _, _)
 RawItems(b, p, e, acc) ==
@@ -153,6 +160,16 @@ DynHashed    == FieldNames(DynTx, {"yes", "no"})
 \* when a base fee is present.  The signature enters through the recovered signer only.
 HeaderSignedWithFee == FieldNames(Header, {"yes", "fee"})
 HeaderSignedNoFee   == FieldNames(Header, {"yes"})
+
+\* ---- receipts: no id, but the receipts root (a header field) commits to every field of every receipt ---------------
+\* all field paths of a schema: a struct contributes its fields, a list its length ("name") and its elements ("name[]")
+RECURSIVE FieldPaths(_, _)
+FieldPaths(s, nm) ==
+  CASE s.t = "struct" -> Flat([i \in 1..Len(s.f) |-> FieldPaths(s.f[i].s, nm \o "." \o s.f[i].name)], 1, Len(s.f))
+    [] s.t = "list"   -> <<nm>> \o FieldPaths(s.of, nm \o "[]")
+    [] OTHER          -> <<nm>>
+ReceiptBound == <<"receipt.type">> \o FieldPaths(Receipt, "receipt")
+ReceiptBases == [type : {"legacy", "dynfee"}, reverted : BOOLEAN, amounts : {"zero", "nonzero"}, outputs : {"empty", "two"}]
 
 \* ---- boundary VALUES of the base objects on which every signed field is perturbed ---------------------------------
 \* The fields below gate other behaviour (trimming of the extension, presence of the base fee, zero integers encode as
@@ -280,7 +297,7 @@ DecFields(fs, i, b, p, e, acc) ==
 \* exactly one item that is the whole of b[p..]
 Whole(s, b, p) == LET r == Dec(s, b, p, Len(b) + 1) IN IF r.ok /\ r.nx = Len(b) + 1 THEN r ELSE Bad
 
-Kinds == {"txbin", "txrlp", "header", "block", "rcbin", "rcrlp"}
+Kinds == {"txbin", "txrlp", "txlist", "header", "block", "rcbin", "rcrlp"}
 
 \* UnmarshalBinary of tx / receipt: first byte > 0x7f => legacy RLP list, else typed envelope ty || rlp
 DecBinary(legacy, typed, b) ==
@@ -290,15 +307,28 @@ DecBinary(legacy, typed, b) ==
   ELSE IF b[1] # TypeDyn THEN Bad
   ELSE LET r == Whole(typed, b, 2) IN IF r.ok THEN [ok |-> TRUE, v |-> [ty |-> TypeDyn, body |-> r.v]] ELSE Bad
 
-Strip(r) == IF r.ok THEN [ok |-> TRUE, v |-> r.v] ELSE Bad
+\* ---- the two ways thor hands bytes to the rlp decoder -------------------------------------------------------------
+\* STREAM:  rlp.NewStream(reader, limit).Decode(val)  - p2p msg.Decode (limit = msg.Size), rlp.Decode(reader) (limit 0:
+\*          for a bytes.Reader the limit is then its length).  One value is read from the front of the input; it has to
+\*          fit into the first `limit` bytes; WHATEVER FOLLOWS IT IS NOT LOOKED AT.
+\* BYTES:   rlp.DecodeBytes(b, val) = the stream decode with limit Len(b), PLUS "no trailing data" (ErrMoreThanOneValue).
+\* That is the whole (documented) difference between the two; the field-level rules are the same.
+TxList == ListOf(TxItem, -1, "tx")                                  \* tx.Transactions
+StreamKinds == {"txrlp", "txlist", "header", "block"}
+TopSchema(kind) == CASE kind = "txrlp" -> TxItem [] kind = "txlist" -> TxList [] kind = "header" -> Header
+                     [] kind = "block" -> Block [] kind = "rcrlp" -> RcItem
+\* result: [ok, v, n] with n = number of bytes consumed
+StreamDecode(kind, b, limit) ==
+  LET lim == IF limit = 0 \/ limit > Len(b) THEN Len(b) ELSE limit
+      r == Dec(TopSchema(kind), b, 1, lim + 1)
+  IN IF r.ok THEN [ok |-> TRUE, v |-> r.v, n |-> r.nx - 1] ELSE Bad
+BytesDecode(kind, b) == LET r == StreamDecode(kind, b, 0) IN IF r.ok /\ r.n = Len(b) THEN [ok |-> TRUE, v |-> r.v] ELSE Bad
 
 Decode(kind, b) ==
   CASE kind = "txbin"  -> DecBinary(LegacyTx, DynTx, b)            \* tx.Transaction.UnmarshalBinary
-    [] kind = "txrlp"  -> Strip(Whole(TxItem, b, 1))               \* rlp.DecodeBytes(b, *tx.Transaction)
-    [] kind = "header" -> Strip(Whole(Header, b, 1))               \* rlp.DecodeBytes(b, *block.Header)
-    [] kind = "block"  -> Strip(Whole(Block, b, 1))                \* rlp.DecodeBytes(b, *block.Block), block.DecodeRawBlock
     [] kind = "rcbin"  -> DecBinary(Receipt, Receipt, b)           \* tx.Receipt.UnmarshalBinary
-    [] kind = "rcrlp"  -> Strip(Whole(RcItem, b, 1))               \* rlp.DecodeBytes(b, *tx.Receipt)
+    [] OTHER           -> BytesDecode(kind, b)                     \* rlp.DecodeBytes into *tx.Transaction, tx.Transactions,
+                                                                   \* *block.Header, *block.Block (+ DecodeRawBlock), *tx.Receipt
 
 (* ------------------------------------------------------------------------------------------------------------- *)
 (* Item trees and Encode                                                                                           *)
@@ -335,13 +365,6 @@ SerRange(ts, lo, hi) ==
   ELSE LET mid == (lo + hi) \div 2 IN SerRange(ts, lo, mid) \o SerRange(ts, mid + 1, hi)
 SerAll(ts, i) == SerRange(ts, i, Len(ts))
 
-\* seqs[lo] \o ... \o seqs[hi]  (balanced; the caller passes the bounds so that TLC never re-enumerates seqs)
-RECURSIVE Flat(_, _, _)
-Flat(seqs, lo, hi) ==
-  IF lo > hi THEN <<>>
-  ELSE IF lo = hi THEN seqs[lo]
-  ELSE LET mid == (lo + hi) \div 2 IN Flat(seqs, lo, mid) \o Flat(seqs, mid + 1, hi)
-
 \* reserved.EncodeRLP: features followed by the unused raw items, trailing empty items popped
 IsEmptyRaw(r) == r = <<>> \/ r = <<128>> \/ r = <<192>>
 RECURSIVE TrimTail(_)
@@ -372,6 +395,7 @@ EncBinary(legacy, typed, v) == IF v.ty = 0 THEN Enc(legacy, v.body) ELSE <<v.ty>
 Encode(kind, v) ==
   CASE kind = "txbin"  -> EncBinary(LegacyTx, DynTx, v)            \* MarshalBinary
     [] kind = "txrlp"  -> Enc(TxItem, v)                           \* EncodeRLP
+    [] kind = "txlist" -> Enc(TxList, v)
     [] kind = "header" -> Enc(Header, v)
     [] kind = "block"  -> Enc(Block, v)
     [] kind = "rcbin"  -> EncBinary(Receipt, Receipt, v)
@@ -386,6 +410,8 @@ HeaderPreimage(v) ==
 
 \* the property
 RoundTrips(kind, x) == LET d == Decode(kind, x) IN d.ok => Encode(kind, d.v) = x
+\* ... and for a stream: what was consumed is the canonical encoding of what was decoded
+StreamRoundTrips(kind, x, limit) == LET d == StreamDecode(kind, x, limit) IN d.ok => Encode(kind, d.v) = SubSeq(x, 1, d.n)
 \* Size() of a decoded object = length of its canonical encoding: Transaction.Size() counts MarshalBinary (whatever
 \* the entry point), Block.Size() the RLP of the block; -1: the type has no Size().
 SizeOf(kind, v) ==
